@@ -6,6 +6,7 @@ import (
 	"encoding/json"
 	"fmt"
 	"sort"
+	"strconv"
 
 	"cosmossdk.io/math"
 	sdk "github.com/cosmos/cosmos-sdk/types"
@@ -34,6 +35,7 @@ type JobSpec struct {
 type jobOp struct {
 	kind    string // create | execute
 	user    *world.Account
+	via     *Contract // non-nil: the request is made by this contract (executed by user)
 	job     *JobSpec
 	jobID   string
 	payload []byte // caller supplied (hex-decoded); nil = none
@@ -73,6 +75,23 @@ type JobWorld struct {
 	usedTx      map[common.Hash]bool
 	usedTxOrder []common.Hash
 	hooks       []func(*JobWorld, *world.BlockResult)
+	// Contracts are instances of the echo contract: principals with 32-byte addresses that create and run jobs through the wasm bindings
+	Contracts []*Contract
+}
+
+// requester is the principal in whose name the operation is made.
+func (op *jobOp) requester() sdk.AccAddress {
+	if op.via != nil {
+		return op.via.Addr
+	}
+	return op.user.Addr
+}
+
+func (op *jobOp) who() string {
+	if op.via != nil {
+		return "contract " + op.via.Addr.String()[:14] + " (run by " + op.user.Name + ")"
+	}
+	return op.user.Name
 }
 
 type execResult struct {
@@ -118,6 +137,9 @@ func NewJobWorld(r *core.Run, cfg BridgeCfg, hooks ...func(*JobWorld, *world.Blo
 	}
 	if !b.bootstrapped && !b.Aborted {
 		core.Harnessf("bridge bootstrap did not complete (height %d)", b.N.Height)
+	}
+	if cfg.NContracts > 0 && !b.Aborted {
+		w.Contracts = DeployEcho(b.Sim, b.Users[0], cfg.NContracts, w.Step)
 	}
 	b.Sim.Cfg.RestartPerMille, b.Sim.Cfg.CrashPerMille, b.Sim.Cfg.JumpPerMille = restart, crash, jump
 	r.Trace.Event("bootstrapped", "h=%d", b.N.Height)
@@ -213,6 +235,27 @@ func (w *JobWorld) CreateJob(u *world.Account, id, chain string, contract common
 	}
 }
 
+// ContractCreateJob lets a contract create a job through the scheduler binding.
+func (w *JobWorld) ContractCreateJob(u *world.Account, c *Contract, id, chain string, contract common.Address, payload []byte, modifiable, mev bool) {
+	custom := map[string]any{"scheduler_msg": map[string]any{"create_job": map[string]any{"job": map[string]any{
+		"job_id": id, "chain_type": "evm", "chain_reference_id": chain, "definition": string(jobDefinition(contract)), "payload": string(jobPayload(payload)),
+		"payload_modifiable": modifiable, "is_mev": mev}}}}
+	res := c.ExecuteVia(w.Sim, u, custom)
+	if res.Accepted() {
+		w.pending = append(w.pending, &jobOp{kind: "create", user: u, via: c, tx: res.Tx,
+			job: &JobSpec{ID: id, Owner: c.Addr.String(), Chain: chain, Contract: contract, Payload: payload, Modifiable: modifiable, MEV: mev}})
+	}
+}
+
+// ContractExecuteJob lets a contract request a job execution (the binding requires a caller payload).
+func (w *JobWorld) ContractExecuteJob(u *world.Account, c *Contract, id string, payload []byte) {
+	custom := map[string]any{"scheduler_msg": map[string]any{"execute_job": map[string]any{"job_id": id, "sender": c.Addr.String(), "payload": payload}}}
+	res := c.ExecuteVia(w.Sim, u, custom)
+	if res.Accepted() {
+		w.pending = append(w.pending, &jobOp{kind: "execute", user: u, via: c, jobID: id, payload: payload, rawIn: jobPayload(payload), tx: res.Tx})
+	}
+}
+
 func (w *JobWorld) ExecuteJob(u *world.Account, id string, payload []byte) {
 	var in []byte
 	if payload != nil {
@@ -250,7 +293,10 @@ func (w *JobWorld) digest(br *world.BlockResult) {
 		ok := res.Code == 0
 		switch op.kind {
 		case "create":
-			w.R.Trace.Event("create-job", "%s %s ok=%v", op.user.Name, op.job.ID, ok)
+			w.R.Trace.Event("create-job", "%s %s ok=%v", op.who(), op.job.ID, ok)
+			if ok && op.via != nil {
+				w.R.Stats.Probe("job_created_by_contract")
+			}
 			if ok {
 				w.R.Stats.Probe("job_created")
 				if _, dup := w.Jobs[op.job.ID]; !dup {
@@ -267,7 +313,11 @@ func (w *JobWorld) digest(br *world.BlockResult) {
 			if ok {
 				w.R.Stats.Probe("job_executed")
 				var md sdk.TxMsgData
-				if err := md.Unmarshal(res.Data); err == nil && len(md.MsgResponses) > 0 {
+				if op.via != nil {
+					if v, ok := anyAttr(res.Events, "msg-id"); ok {
+						msgID, _ = strconv.ParseUint(v, 10, 64)
+					}
+				} else if err := md.Unmarshal(res.Data); err == nil && len(md.MsgResponses) > 0 {
 					var resp schedulertypes.MsgExecuteJobResponse
 					if err := resp.Unmarshal(md.MsgResponses[0].Value); err == nil {
 						msgID = resp.MessageID
@@ -276,7 +326,10 @@ func (w *JobWorld) digest(br *world.BlockResult) {
 			} else {
 				w.R.Stats.Probe("job_execute_failed")
 			}
-			w.R.Trace.Event("execute-job", "%s %s ok=%v msg=%d", op.user.Name, op.jobID, ok, msgID)
+			w.R.Trace.Event("execute-job", "%s %s ok=%v msg=%d", op.who(), op.jobID, ok, msgID)
+			if ok && op.via != nil {
+				w.R.Stats.Probe("job_executed_by_contract")
+			}
 			w.LastExec = append(w.LastExec, execResult{op: op, ok: ok, msgID: msgID, log: res.Log})
 		}
 	}
@@ -293,6 +346,10 @@ func (w *JobWorld) RandomJobTraffic(maxOps int) {
 	n := t.Intn(maxOps + 1)
 	for i := 0; i < n; i++ {
 		u := w.Users[t.Intn(len(w.Users))]
+		var via *Contract
+		if len(w.Contracts) > 0 && t.Draw(3) == 1 {
+			via = w.Contracts[t.Intn(len(w.Contracts))]
+		}
 		switch k := t.Draw(10); {
 		case k < 2 || len(w.Jobs) == 0:
 			id := fmt.Sprintf("job-%d", t.Intn(12))
@@ -304,13 +361,21 @@ func (w *JobWorld) RandomJobTraffic(maxOps int) {
 			if t.Draw(4) == 0 {
 				forged = w.Users[t.Intn(len(w.Users))].Addr
 			}
+			if via != nil {
+				w.ContractCreateJob(u, via, id, chain, common.BytesToAddress(t.Bytes(20)), t.Bytes(4+t.Intn(40)), t.Draw(2) == 1, t.Draw(6) == 0)
+				continue
+			}
 			w.CreateJob(u, id, chain, common.BytesToAddress(t.Bytes(20)), t.Bytes(4+t.Intn(40)), t.Draw(2) == 1, t.Draw(6) == 0, forged)
 		case k < 9:
 			// keep the backlog bounded: a sender with two undelivered calls waits
 			inflight := 0
+			sender := u.Addr.Bytes()
+			if via != nil {
+				sender = via.Addr.Bytes()
+			}
 			for _, q := range w.Cur {
 				if q.Msg != nil {
-					if a, ok := q.Msg.Action.(*evmtypes.Message_SubmitLogicCall); ok && bytes.Equal(a.SubmitLogicCall.SenderAddress, u.Addr.Bytes()) {
+					if a, ok := q.Msg.Action.(*evmtypes.Message_SubmitLogicCall); ok && bytes.Equal(a.SubmitLogicCall.SenderAddress, sender) {
 						inflight++
 					}
 				}
@@ -326,6 +391,13 @@ func (w *JobWorld) RandomJobTraffic(maxOps int) {
 			var payload []byte
 			if t.Draw(2) == 1 {
 				payload = t.Bytes(4 + t.Intn(36))
+			}
+			if via != nil {
+				if payload == nil && t.Draw(4) != 0 {
+					payload = t.Bytes(4 + t.Intn(36))
+				}
+				w.ContractExecuteJob(u, via, id, payload)
+				continue
 			}
 			w.ExecuteJob(u, id, payload)
 		default:
